@@ -209,6 +209,46 @@ type midiEvent struct {
 	Raw     *Term
 }
 
+// builtLiteral: the value a path returns when it is a slice made with a small constant length and then filled element by
+// element on that path (ev := make(Event, 3); ev[0] = ...): the equivalent slice literal.
+func builtLiteral(p *Path, t *Term) *Term {
+	u := t.StripConv()
+	var n int64
+	var ok bool
+	switch {
+	case u.Op == "makeslice" && len(u.Args) > 0:
+		n, ok = u.Args[0].IsIntConst()
+	case u.Op == "slice" && len(u.Args) == 4 && u.Args[0].Op == "alloc":
+		// make with a constant length: a local array, sliced
+		n, ok = u.Args[2].IsIntConst()
+		u = u.Args[0]
+	}
+	if !ok || n <= 0 || n > 16 {
+		return t
+	}
+	elems := make([]*Term, n)
+	for _, e := range p.Effects {
+		if e.Kind != "store" || len(e.Args) < 2 {
+			continue
+		}
+		a := e.Args[0]
+		if a.Op != "indexaddr" || (a.Args[0].StripConv().String() != u.String() && a.Args[0].StripConv().String() != t.StripConv().String()) {
+			continue
+		}
+		if i, ok := a.Args[1].IsIntConst(); ok && i >= 0 && i < n {
+			elems[i] = e.Args[1]
+		} else {
+			return t // a store through a computed index
+		}
+	}
+	for _, e := range elems {
+		if e == nil {
+			return t
+		}
+	}
+	return &Term{Op: "slicelit", Args: elems, Type: t.Type}
+}
+
 func decodeEvent(v *Term) midiEvent {
 	ev := midiEvent{Raw: v, Kind: -1}
 	t := v.StripConv()
